@@ -4,7 +4,9 @@ E4: for every store class / helper x path type x previous value present or absen
 (small, empty, larger than the io buffer, serialisation failing part-way), a fault-free pass
 records the file operations of the write; the write is then repeated with a fault at EVERY
 operation index, in every mode (OSError before / after the operation took effect, a
-non-Exception BaseException, process death before / after in a forked child).
+non-Exception BaseException, process death before / after in a forked child).  The operations
+include every single write(2) call of the buffered layer ('rawwrite'), which additionally may be
+accepted only in part (short count), with or without the disk then being full.
 """
 import os
 import pathlib
@@ -137,7 +139,7 @@ def _run_case(case):
 
         # ---- pass 0: fault-free, records the operation list and the complete new content
         d, p, prev_bytes = prepare("ref")
-        rec = e4.Recorder(d)
+        rec = e4.Recorder(d, raw=True)
         w, r = make_writer(kind, p)
         err = None
         with e4.Intercept(rec):
@@ -170,10 +172,12 @@ def _run_case(case):
             modes = ["die-before", "die-after"]
             if opkind not in ("remove", "unlink"):
                 modes = ["before", "after", "base"] + modes
+            if opkind == "rawwrite":
+                modes = ["short", "short-enospc"] + modes
             for mode in modes:
                 tag = f"k{k}_{mode}"
                 d, p, prev_bytes = prepare(tag)
-                rec = e4.Recorder(d, fault=(k, mode))
+                rec = e4.Recorder(d, fault=(k, mode), raw=True)
                 w, r = make_writer(kind, p)
                 outcome, err = "returned", None
                 if mode.startswith("die"):
@@ -285,8 +289,8 @@ def run(tier):
         "cases": len(cs),
         "distinct_operation_sequences": len(opsets),
         "rule": ("case = store class or helper x str/pathlib path x previous value present/absent x new value (small, empty, > io buffer, serialisation failing part-way); "
-                 "for each case every index k of the recorded file operations (open, write, flush, close, replace/rename, remove) x mode (OSError before / after the operation, "
-                 "non-Exception BaseException, process death before / after in a forked child); distinct_nontrivial counts (case, operation kind, mode) combinations in which the fault actually fired"),
+                 "for each case every index k of the recorded file operations (open, write, flush, close, each write(2) call of the buffered layer, replace/rename, remove) x mode (OSError before / after the operation, "
+                 "short write(2) count with / without ENOSPC afterwards, non-Exception BaseException, process death before / after in a forked child); distinct_nontrivial counts (case, operation kind, mode) combinations in which the fault actually fired"),
         "samples": samples,
         "exhaustive": True,
     }
